@@ -501,3 +501,13 @@ def run(facts, rep, ctx):
     round3.lt2(facts, rep)
     round3.sk1(facts, rep)
 
+
+
+_run_before_round5 = run
+
+
+def run(facts, rep, ctx):
+    """rules added after the fourth seeding round (rules/round5.py)"""
+    _run_before_round5(facts, rep, ctx)
+    from . import round5
+    round5.ep1(facts, rep)
